@@ -1405,7 +1405,15 @@ impl<B> StreamRef<B> {
 
         me.actions
             .send
-            .reserve_capacity(capacity, &mut stream, &mut me.counts)
+            .reserve_capacity(capacity, &mut stream, &mut me.counts);
+
+        // Lowering a reservation hands the released connection capacity to
+        // the streams waiting for it. One of them may have buffered data and
+        // has then been scheduled for sending: make sure the connection task
+        // runs, nothing else is going to wake it.
+        if let Some(task) = me.actions.task.take() {
+            task.wake();
+        }
     }
 
     /// Returns the stream's current send capacity.
